@@ -115,7 +115,7 @@ func opSchemas() (openapi3.Schemas, []string) {
 		switch {
 		case i == 0:
 			defs[name] = opDefinition()
-		case v.Tier() == 0:
+		case v.Tier() == 0 || i == 2:
 			defs[name] = &openapi3.SchemaRef{Value: &openapi3.Schema{Type: opTypes("string")}}
 		default:
 			defs[name] = opLeaf()
